@@ -228,7 +228,7 @@ func run(sc scenario) (out trialOut) {
 		if (sc.BlockAtK && n == sc.K) || isHedgeShape && sc.SucceedAt == 0 {
 			select {
 			case <-exec.Canceled():
-			case <-time.After(45 * time.Second):
+			case <-harness.After(45 * time.Second):
 				add("blocked-45s", n)
 			}
 		}
@@ -280,7 +280,7 @@ func run(sc scenario) (out trialOut) {
 		// the execution completes by itself; cancelling afterwards must change nothing
 		select {
 		case got = <-resCh:
-		case <-time.After(30 * time.Second):
+		case <-harness.After(30 * time.Second):
 			return fail("harness-or-hang", "an execution that succeeds on attempt %d had not returned after 30s", sc.SucceedAt)
 		}
 		fire()
@@ -293,7 +293,7 @@ func run(sc scenario) (out trialOut) {
 	} else {
 		select {
 		case got = <-resCh:
-		case <-time.After(30 * time.Second):
+		case <-harness.After(30 * time.Second):
 			mu.Lock()
 			l := fmt.Sprint(log)
 			mu.Unlock()
@@ -418,8 +418,8 @@ func run(sc scenario) (out trialOut) {
 		return fail("attempts-after-cancel", "%d attempts entered the function after the cancellation had taken effect (at most one may)", entersAfterCancel)
 	}
 	if sc.Source == "timeout" && isSource {
-		deadline := time.Now().Add(30 * time.Second)
-		for toListener.Load() < 1 && time.Now().Before(deadline) {
+		deadline := harness.Wait(30 * time.Second)
+		for toListener.Load() < 1 && !deadline.Expired() {
 			time.Sleep(100 * time.Microsecond)
 		}
 		if toListener.Load() != 1 {
